@@ -239,8 +239,12 @@ func (c *httpsCloner) putKV(kv dns.SVCBKeyValue) {
 // putIPs returns the underlying arrays of ips into c if possible.
 func (c *httpsCloner) putIPs(ips []net.IP) {
 	for _, ip := range ips {
-		if cap(ip) >= 16 {
-			c.ip.Put((*[16]byte)(ip[:16]))
+		// Only take the arrays that end with the IP's own capacity, like those
+		// produced by appendIPs.  IPs of a message unpacked from the wire are
+		// windows into a single larger buffer, and pooling the 16 bytes
+		// starting at each of them would put overlapping arrays into the pool.
+		if cap(ip) == net.IPv6len {
+			c.ip.Put((*[net.IPv6len]byte)(ip[:net.IPv6len]))
 		}
 	}
 }
